@@ -345,6 +345,10 @@ func (s *spaceService) spacePullWithPeer(ctx context.Context, p peer.Peer, id st
 		err = rpcerr.Unwrap(err)
 		return
 	}
+	if res.GetPayload() == nil {
+		// the payload is an optional field of the wire message
+		return nil, spacesyncproto.ErrUnexpected
+	}
 
 	st, err = s.createSpaceStorage(ctx, spacestorage.SpaceStorageCreatePayload{
 		AclWithId: &consensusproto.RawRecordWithId{
